@@ -32,7 +32,7 @@ impl Mutator for CharacterMutator {
         source: &mut GenerationSource,
         rate: f64,
     ) -> Option<String> {
-        if source.gen_f64() > rate || value.is_empty() {
+        if !source.should_mutate(rate) || value.is_empty() {
             return None;
         }
 
@@ -50,7 +50,7 @@ impl Mutator for CharacterMutator {
         source: &mut GenerationSource,
         rate: f64,
     ) -> Option<Vec<u8>> {
-        if source.gen_f64() > rate || value.is_empty() {
+        if !source.should_mutate(rate) || value.is_empty() {
             return None;
         }
 
